@@ -41,6 +41,26 @@ CHECKS = {
    technique="property-based testing (proptest): reference model of report ages vs the real broker over generated report/age/query/registration histories",
    text="Histories of reports (5 reporters, known/unknown addresses), ageing (timestamps rewritten through snapshot->restore), queries, registrations, re-registrations, removals, failovers for quorum 1..4 and ttl 5/60/3600 s. Listed => registered and >= quorum distinct reporters with a fresh report; duplicates count once; nothing older than ttl survives a query; re-registration clears reports and failed mark.",
    note=BROKER_NOTE + " Wall-clock seconds enter through chrono::Utc::now in the broker; ages within 2 s of the ttl are excluded by construction."),
+ "C05": dict(engine="proxysim", category="exploration", design="DESIGN.md §3 C05",
+   technique="property-based testing (proptest): sequential reference model over generated SETCLUSTER/SETREPL message sequences; concurrent deliveries checked against a linearizability-style explanation rule",
+   text="Sequences of cluster/replication metadata messages with epochs from a small pool (equal, lower, higher), FORCE/COMPRESS, 4 distinguishable contents, foreign-host and malformed messages are delivered to a real proxy; after every message the reply, UMCTL GETEPOCH, the routing of 8 probe slots and UMCTL INFOREPL are compared with a sequential model. A second sub-check delivers from 2..4 tasks on a multi-thread runtime and demands an explanation of every accept/refuse by real-time order.",
+   note="World = real SharedForwardHandler + stateful Redis stand-ins + fake network (ConnFactory/RedisClientFactory seams) on a paused-clock runtime. The concurrent sub-check is free-running (OS scheduling), interleavings are not enumerated."),
+ "C09": dict(engine="proxysim+codec", category="exploration", design="DESIGN.md §3 C09",
+   technique="property-based testing (proptest): differential against an independent CRC16-XMODEM/hash-tag reference; routing oracle over generated slot layouts and command shapes with stand-in execution logs",
+   text="(pure) brace-biased/binary/empty/4 KiB keys: generate_slot vs a bitwise reference. (route) a real proxy with three Redis stand-ins; generated cut points incl. single-slot segments and gaps, several ranges per node, delivered through SETCLUSTER; single-key, EVAL/EVALSHA, and multi-key commands with same/different slots; keys hashing to boundaries +-1. Executed on exactly the owning stand-in, or exact MOVED, or error; cross-slot multi-key refused and nothing executed.",
+   note="Layouts are non-overlapping (overlap only arises from migration twins); active redirection is off here."),
+ "C15": dict(engine="codec", category="exploration", design="DESIGN.md §3 C15",
+   technique="property-based testing (proptest): round-trip and split-invariance oracles over generated RESP pipelines; differential against a strict RESP2 reference recognizer over mutated encodings and raw bytes",
+   text="Recursive RESP values (depth<=5, bulk up to 70000 B with CR/LF, nil forms) in pipelines of 1..5, encoded by the real encoder (checked against a reference encoder) and decoded by every decoder (RespVec, RespPacket, Box<RespPacket>, OptionalMulti single/multi hints) in one piece, under generated k-way splits and under every single split point for streams <= 512 B; consumed byte counts, untouched buffers on need-more, byte-identical pass-through. Differential: targeted mutations of valid encodings and raw bytes vs a strict recognizer.",
+   note="Opaque content (integer digits, negative lengths other than -1, '+N', CR inside a line) is unspecified for the reference. Array counts > 2^20 are left to C16."),
+ "C17": dict(engine="codec+brokersim", category="exploration", design="DESIGN.md §3 C17",
+   technique="property-based testing (proptest): round-trip oracles, differential against reference decoders written from docs/meta_command.md, exhaustive single-token prefix/deletion/corruption per generated message, end-to-end INFOMGR->commit journey on broker states",
+   text="Arbitrary cluster-metadata messages (plain and compressed), SETREPL messages, migration task descriptors and switch arguments round-trip through the real parsers; every proper token prefix, every single-token deletion and 11 corruptions of every token (plus blob truncations/flips) are parsed by the real parser and by a reference decoder: real must never return a different value, and must reject what the reference rejects. Metadata of reachable broker states goes through the real coordinator sender (hook H1) and the real proxy parser; every pending migration reported as finished is parsed by the real coordinator checker and committed on the issuing broker exactly once.",
+   note="Values are compared modulo nodes without slot ranges (not representable in the plain encoding). One known finding: an invalid/truncated CONFIG section is ignored and the default config installed (deliberate in the source)."),
+ "C20": dict(engine="proxysim", category="exploration", design="DESIGN.md §3 C20",
+   technique="property-based testing (proptest): model-based oracle (uncompressed reference semantics = the run with compression disabled) plus stand-in log inspection over generated write/read programs",
+   text="Two real proxies, compression strategy from SETCLUSTER CONFIG, active redirection on/off; programs of SET (with EX/PX/NX/XX/KEEPTTL), SETEX, PSETEX, SETNX, GETSET, MSET/MSETNX (1..4 pairs), GET, MGET, DEL and restricted commands entering through either proxy; values empty..1 MiB, incompressible, zstd-looking, pre-compressed. Every reply equals the model's; in the stand-in log non-value arguments are identical and value arguments zstd-decode to the request's value; restricted commands are refused and never reach Redis in set_get_only.",
+   note="Multi-key commands use keys of one slot. Results of restricted commands in allow_all mode are not judged."),
 }
 
 NOT_YET = {}
@@ -77,7 +97,9 @@ def main():
             "add_only": True,
         },
         "engines": [
-            {"name": "brokersim", "path": "harness/src/engines/brokersim.rs", "serves_properties": ["C01","C04","C06","C10","C12","C13","C18"], "kind_free_text": "proptest-generated operation histories against the real MemBrokerService, oracles over the served JSON views after every step"},
+            {"name": "brokersim", "path": "harness/src/engines/brokersim.rs", "serves_properties": ["C01","C04","C06","C10","C12","C13","C18","C17"], "kind_free_text": "proptest-generated operation histories against the real MemBrokerService, oracles over the served JSON views after every step"},
+            {"name": "codec", "path": "harness/src/engines/codec.rs", "serves_properties": ["C15","C17","C09","C19"], "kind_free_text": "pure functions: RESP value model, reference encoder, strict reference recognizer; reference decoders for control-plane messages"},
+            {"name": "proxysim", "path": "harness/src/engines/world.rs", "serves_properties": ["C05","C09","C20","C14","C02","C03","C19","C07"], "kind_free_text": "in-process world: real proxies (SharedForwardHandler), stateful Redis stand-ins and a fake network implementing ConnFactory/RedisClientFactory on a paused-clock single-thread runtime; message delays/holds/faults decided by the generated schedule"},
         ],
         "checks": checks,
         "not_applicable": na,
